@@ -256,9 +256,15 @@ class SchedulingSolver(BaseModelWithJson):
                     )
                     total_work_for_all_resources.append(work_contribution)
                 if total_work_for_all_resources:
-                    self.append_z3_assertion(
+                    work_amount_assertion = (
                         z3.Sum(total_work_for_all_resources) >= task.work_amount
                     )
+                    if task.optional:
+                        # an optional task that is not scheduled provides no work
+                        work_amount_assertion = z3.Implies(
+                            task._scheduled, work_amount_assertion
+                        )
+                    self.append_z3_assertion(work_amount_assertion)
 
         # process buffers
         for buffer in self.problem.buffers:
